@@ -7,6 +7,8 @@ CONSTANTS
   UnOps = {"wrap1", "erswrap", "panic"}
   NOps = {"multi", "join", "stack", "coll"}
   SimSteps = 0
+  NilLike = {}
+  Holey = {}
 INVARIANT Sane
-CONSTRAINT Emit
+CONSTRAINT EmitPlain
 CHECK_DEADLOCK FALSE
